@@ -12,7 +12,7 @@
    operators ([table_ok]; any number of levels, any prefix operators, the empty table included), every
    identifier chain, every expression, every fuel - no bound on depth or length. *)
 From P2 Require Import Base.Prelude Lex.Token Syn.Ast Syn.Parse Syn.Render Syn.ParseRel Syn.ParseProofs
-  Syn.ParseSound Syn.ParseTotal Syn.ParseCor Syn.Full Syn.FullProofs Syn.FullSound Syn.TextToAst Syn.TableBuild Syn.TableBuildProofs.
+  Syn.ParseSound Syn.ParseTotal Syn.ParseCor Syn.Full Syn.FullProofs Syn.FullSound Syn.TextToAst Syn.RenderText Syn.TableBuild Syn.TableBuildProofs.
 From P2 Require Lex.Tok Lex.TokProofs.
 
 (* completeness: every well-formed rendering is parsed, as a whole, to exactly the tree it denotes
@@ -104,6 +104,24 @@ Theorem C03_text_layout_irrelevant : forall (tc : P2.Lex.Tok.tcfg) (pc : pcfg) (
   parse_tokens pc ids (P2.Lex.Tok.tokenize tc (P2.Lex.Tok.layout_text items))
   = parse_tokens pc ids (P2.Lex.Tok.tokenize tc (P2.Lex.Tok.layout_text items')).
 Proof. exact text_layout_irrelevant. Qed.
+
+(* the canonical TEXT of a tree reads back (Syn/RenderText.v): [render_text] writes every token of the canonical token
+   stream as its lexeme followed by one blank - identifiers and keywords as words (identifiers that are not ASCII words
+   between single quotes), strings as literals with escapes, numbers, operators and punctuation literally.  [spellable]
+   is a BOOLEAN: the parser table is usable, the tokenizer has no comfort mode, no operator contains a blank, a line
+   break or NUL, a blank is neither letter nor digit, and every token has such a lexeme: identifiers are words of
+   letters outside the keyword and text-operator tables (or quotable), keywords are words in the keyword table, numbers
+   are accepted by the number matcher, strings have no NUL, operators are complete paths of the operator trie spelled
+   without typographic aliases that form no comment opener, punctuation is the rune of its type.  No layout
+   hypothesis is left: tokenizing the text gives the canonical tokens, parsing them gives the AST the tree denotes *)
+Theorem C03_render_tokenize : forall (tc : P2.Lex.Tok.tcfg) (ts : list tk), spellable_toks tc ts = true ->
+  map untok (P2.Lex.Tok.tokenize tc (render_toks ts)) = ts.
+Proof. exact render_tokenize. Qed.
+
+Theorem C03_render_roundtrip : forall (tc : P2.Lex.Tok.tcfg) (pc : pcfg) (ids : idents) r e u,
+  spellable tc pc r = true -> fwf pc r = true -> ferase pc ids r = Some (e, u) ->
+  parse_tokens pc ids (P2.Lex.Tok.tokenize tc (render_text pc r)) = POk e.
+Proof. exact render_roundtrip. Qed.
 
 (* tables built through the generator API (Syn/TableBuild.v: AddOp* append, AddOpBehind(behind, new) = insert_behind):
    after the insertion the new operator binds exactly one level tighter than its anchor (so looser than the anchor's old
@@ -221,6 +239,56 @@ Example C03_text_to_ast_computed :
               [[102%N]; [97%N]] false [])).
 Proof. vm_compute. reflexivity. Qed.
 
+(* canonical text, non-vacuity: a nested program with EVERY construct of the full grammar (func with two parameters, if,
+   string with LF and quote, call, let with a name that needs quotes, try/catch, switch/case/default, list and map
+   literals, one- and many-parameter closures, prefix and binary operators, parentheses, member access, index, method
+   call) is spellable; its text is
+     func f ( n , m ) if n < b then <the string literal of  s LF quote > else f ( n - b , 1 ) ; let 'k k' = 2 ; try switch a case 1 : [ a , 'k k' ]
+     default { p : a , q : x -> - x } catch ( a - b ) . fld [ 0 ] . m ( ( y , z ) -> y << z )
+   and it is read back to the AST the tree denotes.  A tree that binds an identifier spelled like the keyword  if  is
+   well-formed and denotes an AST, but is NOT spellable - and indeed its text does not parse *)
+Definition rd_tc : P2.Lex.Tok.tcfg :=
+  P2.Lex.Tok.mkCfg [[45]; [60]; [60; 61]; [60; 60]; [33]; [61]; [45; 62]]%N []
+    [P2.Syn.Parse.s_let; s_func; s_try; s_catch; s_if; s_then; s_else; s_switch; s_case; s_default] true false P2.Lex.Tok.MSimple
+    (fun c => ((65 <=? c) && (c <=? 90)) || ((97 <=? c) && (c <=? 122)))%N (fun c => (48 <=? c) && (c <=? 57))%N.
+Definition rd_a := FIdent [97%N]. Definition rd_b := FIdent [98%N]. Definition rd_n := FIdent [110%N].
+Definition rd_prog : ft :=
+  FFunc [102%N] [[110%N]; [109%N]]
+    (FIf (FBin 1 rd_n rd_b) (FStr [115; 10; 34]%N)
+         (FCall (FIdent [102%N]) (FA_cons (FBin 0 rd_n rd_b) (FA_last (FNum [49%N])))))
+    (FLet [107; 32; 107]%N (FNum [50%N])
+      (FTry
+        (FSwitch rd_a
+           (FC_cons (FNum [49%N]) (FList (FA_cons rd_a (FA_last (FIdent [107; 32; 107]%N)))) FC_nil)
+           (FMap (FE_cons [112%N] rd_a (FE_last [113%N] (FClo1 [120%N] (FUn [45%N] (FIdent [120%N])))))))
+        (FMethod (FIndex (FAccess (FParen (FBin 0 rd_a rd_b)) [102; 108; 100]%N) (FNum [48%N])) [109%N]
+           (FA_last (FCloN [[121%N]; [122%N]] (FBin 3 (FIdent [121%N]) (FIdent [122%N]))))))).
+Definition rd_text : list N :=
+  [102; 117; 110; 99; 32; 102; 32; 40; 32; 110; 32; 44; 32; 109; 32; 41; 32; 105; 102; 32; 110; 32; 60; 32; 98; 32; 116;
+   104; 101; 110; 32; 34; 115; 92; 110; 92; 34; 34; 32; 101; 108; 115; 101; 32; 102; 32; 40; 32; 110; 32; 45; 32; 98; 32;
+   44; 32; 49; 32; 41; 32; 59; 32; 108; 101; 116; 32; 39; 107; 32; 107; 39; 32; 61; 32; 50; 32; 59; 32; 116; 114; 121;
+   32; 115; 119; 105; 116; 99; 104; 32; 97; 32; 99; 97; 115; 101; 32; 49; 32; 58; 32; 91; 32; 97; 32; 44; 32; 39; 107;
+   32; 107; 39; 32; 93; 32; 100; 101; 102; 97; 117; 108; 116; 32; 123; 32; 112; 32; 58; 32; 97; 32; 44; 32; 113; 32; 58;
+   32; 120; 32; 45; 62; 32; 45; 32; 120; 32; 125; 32; 99; 97; 116; 99; 104; 32; 40; 32; 97; 32; 45; 32; 98; 32; 41; 32;
+   46; 32; 102; 108; 100; 32; 91; 32; 48; 32; 93; 32; 46; 32; 109; 32; 40; 32; 40; 32; 121; 32; 44; 32; 122; 32; 41; 32;
+   45; 62; 32; 121; 32; 60; 60; 32; 122; 32; 41; 32]%N.
+Example C03_render_nonvacuous :
+  spellable rd_tc ex_cfg rd_prog = true /\ fwf ex_cfg rd_prog = true /\ render_text ex_cfg rd_prog = rd_text /\
+  (exists e u, ferase ex_cfg ex_ids rd_prog = Some (e, u) /\
+     parse_tokens ex_cfg ex_ids (P2.Lex.Tok.tokenize rd_tc rd_text) = POk e).
+Proof.
+  split; [vm_compute; reflexivity|]. split; [vm_compute; reflexivity|]. split; [vm_compute; reflexivity|].
+  eexists. eexists. split; [vm_compute; reflexivity|vm_compute; reflexivity].
+Qed.
+
+Definition rd_bad : ft := FLet [105; 102]%N (FNum [50%N]) rd_a.
+Example C03_render_rejects_keyword_identifier :
+  spellable rd_tc ex_cfg rd_bad = false /\ fwf ex_cfg rd_bad = true /\
+  ferase ex_cfg ex_ids rd_bad = Some (AIdent [97%N] false, [[97%N]]) /\
+  parse_tokens ex_cfg ex_ids (P2.Lex.Tok.tokenize rd_tc (render_text ex_cfg rd_bad)) = PErr /\
+  spellable rd_tc ex_cfg (FLet [105; 103]%N (FNum [50%N]) rd_a) = true.
+Proof. vm_compute. repeat split; reflexivity. Qed.
+
 Print Assumptions C03_parse_complete.
 Print Assumptions C03_parse_sound.
 Print Assumptions C03_renders_unique.
@@ -234,6 +302,8 @@ Print Assumptions C03_parse_sound_full.
 Print Assumptions C03_parse_iff_renders.
 Print Assumptions C03_text_to_ast.
 Print Assumptions C03_text_layout_irrelevant.
+Print Assumptions C03_render_tokenize.
+Print Assumptions C03_render_roundtrip.
 Print Assumptions C03_insert_behind_priority.
 Print Assumptions C03_parse_no_panic.
 Print Assumptions C03_parse_total.
